@@ -222,6 +222,12 @@ impl Decoder for FrameDecoder {
     type Error = Error;
 
     fn decode(&mut self, src: &mut BytesMut) -> Result<Option<Self::Item>, Self::Error> {
+        // A frame is at least 8 bytes; the length prefix has been stripped already
+        if src.len() < 4 {
+            return Err(Error::DecodeError(String::from(
+                "frame is smaller than the frame header",
+            )));
+        }
         let doff = src.get_u8();
         let ftype = src.get_u8();
         let channel = src.get_u16();
